@@ -69,6 +69,7 @@ class Collector:
         self.quick = ctx.quick
         self.rng = ctx.rng.fork("collector")
         self.notes = []
+        self.drive = ctx.drive
 
     def stream(self, api, lines, family, cfg="rel", judge_api=None, describe=None, nontrivial=None,
                extra_defs=(), tag=None, env=None, drive_api=None, keyfn=None, ignore_codes=()):
@@ -114,6 +115,8 @@ def run_sanitized(ctx, api, lines, family, cfg="dbg", trace=True, keyfn=None):
     crashed = {i: (rc, err) for i, rc, err in crashes}
     traces, tidx = [], []
     for i, line in enumerate(lines):
+        if recs[i] is None and i in vlib.LAST_SKIPPED:
+            continue
         if recs[i] is None:
             rc, err = crashed.get(i, (None, ""))
             fam["crashes"] += 1
